@@ -355,6 +355,13 @@ namespace
     }
   }
 
+  /// scales all vertex coordinates by a power of two (cell volumes 2^(+-30 d): tiny / huge mass matrix entries)
+  template<typename Mesh_> void rescale(Mesh_& mesh, double f)
+  {
+    auto& vtx = mesh.get_vertex_set();
+    for(Index i = 0; i < vtx.get_num_vertices(); ++i) for(int k = 0; k < Mesh_::world_dim; ++k) vtx[i][k] *= f;
+  }
+
   const Geometry::PermutationStrategy PERMS[] = {
     Geometry::PermutationStrategy::none, Geometry::PermutationStrategy::lexicographic, Geometry::PermutationStrategy::colored,
     Geometry::PermutationStrategy::cuthill_mckee, Geometry::PermutationStrategy::cuthill_mckee_reversed,
@@ -381,7 +388,7 @@ namespace
     typedef typename TrafoEval::ImagePointType ImgPoint;
 
     /// own Newton inversion of the trafo on the prepared cell; returns the residual
-    static double invert(TrafoEval& te, TrafoData& td, const ImgPoint& x, DomPoint& xi)
+    static double invert(TrafoEval& te, TrafoData& td, const ImgPoint& x, DomPoint& xi, double h)
     {
       for(int k = 0; k < dim; ++k) xi[k] = RefCell<ShapeType>::center();
       double res = 1e300;
@@ -390,6 +397,7 @@ namespace
         te(td, xi);
         ImgPoint r; res = 0.0;
         for(int k = 0; k < dim; ++k) { r[k] = x[k] - td.img_point[k]; res = std::max(res, std::fabs(r[k])); }
+        res /= h; // relative to the cell diameter
         if(res < 1e-14) break;
         for(int a = 0; a < dim; ++a) { double s = 0.0; for(int b = 0; b < dim; ++b) s += td.jac_inv[a][b] * r[b]; xi[a] += s; }
         bool sane = true; for(int a = 0; a < dim; ++a) if(!(std::fabs(xi[a]) < 1e3)) sane = false;
@@ -432,6 +440,55 @@ namespace
       MatrixType rest = prol.transpose();
       MatrixType rest_s = prol_s.transpose();
 
+      // ---- re-invocation on existing objects and the remaining overloads
+      {
+        auto same_vals = [](const MatrixType& a, const MatrixType& b) {
+          if(a.rows() != b.rows() || a.columns() != b.columns() || a.used_elements() != b.used_elements()) return false;
+          for(Index k = 0; k < a.used_elements(); ++k) if(!(a.val()[k] == b.val()[k]) || a.col_ind()[k] != b.col_ind()[k]) return false;
+          for(Index i = 0; i <= a.rows(); ++i) if(a.row_ptr()[i] != b.row_ptr()[i]) return false;
+          return true; };
+        // the direct routines format their target: a second call on the filled matrix and a call on a matrix full of
+        // marker values (sharing its layout with the bystander `prol`) reproduce the result bitwise
+        MatrixType again = prol.clone(LAFEM::CloneMode::Deep);
+        Assembly::GridTransfer::assemble_prolongation_direct(again, space_f, space_c, cub_a);
+        c.check(same_vals(again, prol), "assemble_prolongation_direct called again on the filled matrix gives a different matrix; " + key, "second call differs (old contents not discarded?)");
+        MatrixType marked = prol.clone(LAFEM::CloneMode::Weak);
+        marked.format(777.0);
+        Assembly::GridTransfer::assemble_prolongation_direct(marked, space_f, space_c, Cubature::DynamicFactory(cub_a));
+        c.check(same_vals(marked, prol), "assemble_prolongation_direct into a matrix holding marker values gives a different matrix; " + key, "marker values survive or the layout-sharing bystander changed");
+        MatrixType tagain = trunc.clone(LAFEM::CloneMode::Weak);
+        tagain.format(-555.0);
+        Assembly::GridTransfer::assemble_truncation_direct(tagain, space_f, space_c, Cubature::DynamicFactory(cub_a));
+        c.check(same_vals(tagain, trunc), "assemble_truncation_direct into a matrix holding marker values gives a different matrix; " + key, "marker values survive or the layout-sharing bystander changed");
+        // weight-vector route of the truncation (as in asm_transfer_scalar), String-name overloads of both non-direct routines
+        {
+          MatrixType tw = trunc.clone(LAFEM::CloneMode::Layout);
+          VectorType w = tw.create_vector_l();
+          tw.format(); w.format();
+          Assembly::GridTransfer::assemble_truncation(tw, w, space_f, space_c, cub_a);
+          bool w_ok = true; for(Index j = 0; j < nc; ++j) if(!(w(j) >= 1.0) || w(j) != std::floor(w(j))) w_ok = false;
+          c.check(w_ok, "assemble_truncation weight vector is not a positive cell count; " + key, "weight entry < 1 or not an integer");
+          w.component_invert(w);
+          tw.scale_rows(tw, w);
+          c.check(same_vals(tw, trunc), "assemble_truncation + weights differs from assemble_truncation_direct; " + key, "weight-vector route and direct route give different truncation matrices");
+          MatrixType pw2 = prol.clone(LAFEM::CloneMode::Layout);
+          VectorType w2 = pw2.create_vector_l();
+          pw2.format(); w2.format();
+          Assembly::GridTransfer::assemble_prolongation(pw2, w2, space_f, space_c, cub_a);
+          bool w2_ok = true; for(Index i = 0; i < nf; ++i) if(!(w2(i) == wmat[size_t(i)])) w2_ok = false;
+          w2.component_invert(w2);
+          pw2.scale_rows(pw2, w2);
+          c.check(w2_ok && same_vals(pw2, prol), "assemble_prolongation (cubature name overload) + weights differs from assemble_prolongation_direct; " + key, "weight vector or matrix differ");
+        }
+        // transposition into an existing, differently filled matrix of the right shape (asm_transfer_scalar: loc_trunc.transpose(loc_prol))
+        {
+          MatrixType r2 = trunc.clone(LAFEM::CloneMode::Deep);
+          r2.transpose(prol);
+          c.check(same_vals(r2, rest), "transpose(prol) into an existing matrix differs from prol.transpose(); " + key, "old contents of the target influence the transpose");
+        }
+        c.count("reinvocations", 6);
+      }
+
       const Csr P(prol), Pb(prol_b), Ps(prol_s), T(trunc), R(rest), Rs(rest_s);
       c.check(P.m == nf && P.n == nc && T.m == nc && T.n == nf && R.m == nc && R.n == nf, "matrix dimensions; " + key, "prolongation/truncation/restriction dimensions wrong");
 
@@ -473,10 +530,10 @@ namespace
         for(Index cc = 0; cc < ncell_c; ++cc)
         {
           double d2 = 0.0; for(int k = 0; k < dim; ++k) { const double d = bary[k] - cbary[size_t(cc)][k]; d2 += d * d; }
-          if(std::sqrt(d2) > 1.5 * crad[size_t(cc)] + 1e-12) continue;
+          if(std::sqrt(d2) > 1.5 * crad[size_t(cc)] * (1.0 + 1e-12)) continue;
           te_c.prepare(cc);
           DomPoint xi;
-          double res = invert(te_c, td_c, bary, xi);
+          double res = invert(te_c, td_c, bary, xi, crad[size_t(cc)]);
           if(res < 1e-10 && RefCell<ShapeType>::inside(xi, 1e-6)) { parent = cc; ++nparents; }
           te_c.finish();
         }
@@ -509,7 +566,7 @@ namespace
         {
           te_f(td_f, p); se_f(sd_f, td_f);
           DomPoint xi;
-          const double res = invert(te_c, td_c, td_f.img_point, xi);
+          const double res = invert(te_c, td_c, td_f.img_point, xi, crad[size_t(parent)]);
           if(!(res < 1e-10)) { parents_ok = false; continue; }
           te_c(td_c, xi); se_c(sd_c, td_c);
           ++npts;
@@ -618,6 +675,17 @@ namespace
           struct TV { std::string name; std::vector<std::pair<Index, double>> nz; };
           std::vector<TV> tvs;
           { TV z; z.name = "zero vector"; tvs.push_back(z); }
+          {
+            // value alphabet: all-negative, and dense vectors of extreme magnitude (a linear map: the result scales)
+            TV t; t.name = "all-negative vector"; for(Index j = 0; j < nc; ++j) t.nz.push_back(std::make_pair(j, -double(1 + (j % 4)) / 4.0)); tvs.push_back(t);
+            const int ex[4] = {400, -400, 900, -900};
+            for(int q = 0; q < 4; ++q)
+            {
+              TV u; u.name = "dense vector * 2^" + std::to_string(ex[q]);
+              for(Index j = 0; j < nc; ++j) u.nz.push_back(std::make_pair(j, std::ldexp(double(int((j * 5u + 3u) % 11u) - 5) / 4.0 + 0.125, ex[q])));
+              tvs.push_back(u);
+            }
+          }
           // work of one call ~ #fine cells * (local dofs)^3 (local mass matrix inversion per child cell); unit 64 = one bilinear quad
           const uint64_t nl = uint64_t(SpaceEval::max_local_dofs);
           const uint64_t work = std::max<uint64_t>(1u, (uint64_t(ncell_f) * nl * nl * nl) / 64u);
@@ -656,7 +724,8 @@ namespace
           for(const TV& t : tvs)
           {
             tc.format();
-            for(auto& e : t.nz) tc(e.first, e.second);
+            double vmag = 0.0;
+            for(auto& e : t.nz) { tc(e.first, e.second); vmag = std::max(vmag, std::fabs(e.second)); }
             // expected P*v from the columns of P (= rows of R, which was compared bitwise with P^T above)
             std::fill(ex.begin(), ex.end(), 0.0); std::fill(exa.begin(), exa.end(), 0.0);
             for(auto& e : t.nz) for(Index k = R.rp[e.first]; k < R.rp[e.first + 1]; ++k) { ex[size_t(R.ci[k])] += R.va[k] * e.second; exa[size_t(R.ci[k])] += std::fabs(R.va[k] * e.second); }
@@ -669,11 +738,11 @@ namespace
             {
               if(!(tw(i) == wmat[size_t(i)])) { if(w_ok) bi = i; w_ok = false; }
               const double scaled = tf(i) / wmat[size_t(i)];
-              const double tolv = 1e-12 * std::max(1.0, exa[size_t(i)]);
+              const double tolv = 1e-12 * std::max(vmag, exa[size_t(i)]); // relative to the magnitude of the input
               if(!(std::fabs(scaled - ex[size_t(i)]) <= tolv)) { if(v_ok && w_ok) bi = i; v_ok = false; }
               if(!(std::fabs(tfd(i) - ex[size_t(i)]) <= tolv)) { if(d_ok && v_ok && w_ok) bi = i; d_ok = false; }
             }
-            for(Index j = 0; j < nc; ++j) { double want = 0.0; for(auto& e : t.nz) if(e.first == j) want = e.second; if(!(tc(j) == want)) in_ok = false; }
+            { std::vector<double> want((size_t(nc)), 0.0); for(auto& e : t.nz) want[size_t(e.first)] = e.second; for(Index j = 0; j < nc; ++j) if(!(tc(j) == want[size_t(j)])) in_ok = false; }
             if(nfail < 3)
             {
               c.check(w_ok, "matrix-free prolongate_vector: weight vector differs from the matrix route; " + key, [&]{ char b[200]; snprintf(b, sizeof b, "%s: weight[%u] = %g, assemble_prolongation gives %g", t.name.c_str(), unsigned(bi), tw(bi), wmat[size_t(bi)]); return std::string(b); });
@@ -794,13 +863,14 @@ namespace
     const int ng = pair_group_size<Mesh_>();
     const int npairs = (Mesh_::shape_dim >= 2) ? 2 * ng - 1 : ng * ng; // (id,g), (g,id); 1D: all
     for(int src = 0; src < Src::count() + npairs; ++src)
-    for(int dist = 0; dist < 2; ++dist)
+    for(int dist = 0; dist < 4; ++dist) // 0 as built, 1 non-affine distortion, 2/3 coordinates * 2^-30 / 2^+30
     for(int ref = 0; ref < 3; ++ref)
     for(int ps = 0; ps < 8; ++ps)
     for(int pw = 0; pw < 3; ++pw) // which mesh is permuted: 0 coarse, 1 fine, 2 both
     {
       if(ps == 0 && pw > 0) continue;
       const bool is_pair = src >= Src::count();
+      if(dist >= 2 && !(ps == 0 && ref == 0 && (!is_pair || c.thorough))) continue;
       int g1 = 0, g2 = 0;
       if(is_pair)
       {
@@ -813,7 +883,7 @@ namespace
       {
         // orientation pairs: plain in the quick tier; refined / distorted / randomly permuted in the thorough tier
         const bool plain = (dist == 0 && ref == 0 && ps == 0);
-        const bool extra = (ref < 2) && (dist + ref <= 1) && (ps == 0 || (ps == 7 && pw == 2 && dist == 0));
+        const bool extra = (ref < 2) && ((dist >= 2) || ((dist + ref <= 1) && (ps == 0 || (ps == 7 && pw == 2 && dist == 0))));
         const bool extra_quick = (Mesh_::shape_dim <= 2) || (E.degree <= 1);
         if(!(plain || (extra && (c.thorough || extra_quick)))) continue;
         if(Mesh_::shape_dim == 3 && E.degree >= 3 && !c.thorough && (g1 + g2) % 4 != 0) continue;
@@ -829,7 +899,7 @@ namespace
         if(dist == 1 && ps > 0 && !(ps == 7 && pw == 2)) continue;
       }
       if(!c.want()) continue;
-      const std::string key = std::string(E.name) + " " + sname + (dist ? " distorted" : "") + " ref" + std::to_string(ref) + " perm=" + PERM_NAMES[ps] + (ps ? (pw == 0 ? "(coarse)" : pw == 1 ? "(fine)" : "(both)") : "");
+      const std::string key = std::string(E.name) + " " + sname + (dist == 1 ? " distorted" : dist == 2 ? " scaled*2^-30" : dist == 3 ? " scaled*2^30" : "") + " ref" + std::to_string(ref) + " perm=" + PERM_NAMES[ps] + (ps ? (pw == 0 ? "(coarse)" : pw == 1 ? "(fine)" : "(both)") : "");
       c.desc([&]{ return key; });
       if(dist == 1 && hypercube && E.needs_parallelogram)
       {
@@ -837,7 +907,9 @@ namespace
         continue;
       }
       std::unique_ptr<Mesh_> m0 = is_pair ? pair_mesh<Mesh_>(g1, g2) : Src::make(src);
-      if(dist) distort(*m0);
+      if(dist == 1) distort(*m0);
+      if(dist == 2) rescale(*m0, std::ldexp(1.0, -30));
+      if(dist == 3) rescale(*m0, std::ldexp(1.0, 30));
       std::unique_ptr<Mesh_> mc;
       mc = std::move(m0);
       for(int r = 0; r < ref; ++r) { Geometry::StandardRefinery<Mesh_> rr(*mc); std::unique_ptr<Mesh_> nx(new Mesh_(rr)); mc = std::move(nx); }
@@ -873,7 +945,7 @@ int main(int argc, char** argv)
     "meshes are permuted after refinement (the convention GridTransfer's 2-level lookup is written for)",
     "matrix-free prolongation is called for all coarse unit vectors where #coarse dofs * #fine cells * (local dofs)^3/64 <= 4096 (quick) / 16384 (thorough), else for an evenly spaced sub-family (>= 6, incl. first and last), plus zero, dense and coarse-cell supported vectors (first/middle/last coarse cell; all cells of meshes with <= 8 cells in the thorough tier)", "tolerances: exactness 2e-11 absolute on O(1) basis values (local mass matrix inversion), T*P=I 2e-10, matrix-free vs matrix 1e-12 relative, Transfer vs dense product 64 eps relative; transpose is compared bitwise",
     "Global::Transfer is exercised only serially (no muxer, no gate: clone/convert/move and prol/rest/trunc forwarding); muxed/ghost operation needs MPI (C13)", "LAFEM::Transfer applies no filters (none to check); clone(Layout) has undefined values and clone(Allocate) undefined values and index arrays by contract: only layout resp. sizes are compared",
-    "non-nested spaces (Crouzeix-Raviart, Rannacher-Turek, P2-bubble, parametric discontinuous P1 on non-parallelograms) are excluded"};
+    "mesh coordinates scaled by 2^-30 and 2^+30 (cell volumes down to 2^-90) are part of the enumeration; matrix-free prolongation inputs include all-negative and 2^+-400 / 2^+-900 scaled vectors, judged relative to the input magnitude", "non-nested spaces (Crouzeix-Raviart, Rannacher-Turek, P2-bubble, parametric discontinuous P1 on non-parallelograms) are excluded"};
 
   static const ElemDesc L1 = {"Lagrange1", 1, false}, L2 = {"Lagrange2", 2, false}, L3 = {"Lagrange3", 3, false},
     D0 = {"Discontinuous-P0", 0, false}, D1 = {"Discontinuous-P1", 1, true}, B2 = {"Bernstein2", 2, false};
